@@ -53,10 +53,15 @@ Definition x_C15_total_ok (v : val) : val :=
   vbool (both_wf obs_wellformed o &&
          pure_ok vobs_eqb (fun _ => true) (as_bytes (nthv 0 v)) (dec_twice dec_vobs o)).
 (* the SDP glue keeps the single observation *)
+(* observation = (what Stream.Video reports, the stored Sps); the stored set is the bytes sent
+   minus an Annex-B start code (utils.RemoveNaluSeparator in av/format/sdp) *)
 Definition x_C15_glue_ok (v : val) : val :=
   let c := nthv 0 v in let o := nthv 1 v in
-  vbool (obs_wellformed o && ok_h264 (dec_env (nthv 0 c)) (as_bytes (nthv 1 c)) (dec_vobs o)).
-Definition x_C15_glue_total_ok (v : val) : val := vbool (obs_wellformed (nthv 1 v)).
+  vbool (obs_wellformed (nthv 0 o) && zlist_eqb (as_bytes (nthv 1 o)) (remove_separator (as_bytes (nthv 1 c))) &&
+         ok_h264 (dec_env (nthv 0 c)) (as_bytes (nthv 1 c)) (dec_vobs (nthv 0 o))).
+Definition x_C15_glue_total_ok (v : val) : val :=
+  let o := nthv 1 v in
+  vbool (obs_wellformed (nthv 0 o) && zlist_eqb (as_bytes (nthv 1 o)) (remove_separator (as_bytes (nthv 0 v)))).
 (* the decoder before the repairs, for the replayed witnesses *)
 Definition x_C15_h264_prefix (c : val) : val :=
   enc_vobs (vobs_of (go_h264_decode_with read_se_d27 go_width_d28 go_height_d28 (as_bytes c))).
